@@ -28,6 +28,8 @@ def draw_knobs(rng, cfg):
     k["hostile"] = rng.choice([0.05, 0.2, 0.35])
     k["deep_rate"] = rng.choice([0.0, 0.15, 0.5])
     k["variant_rate"] = rng.choice([0.0, 0.1, 0.25])
+    k["container_rate"] = rng.choice([0.0, 0.0, 0.03, 0.06])
+    k["repeat_rate"] = rng.choice([0.0, 0.05, 0.15])
     return k
 
 
@@ -59,6 +61,27 @@ class Tracker:
                 out[k] = (v, _mrepr(v))
         return out
 
+    def check_fast(self):
+        """Identity-only scan (cheap enough to run after every store/call of a simulated thread):
+        returns the entries whose memo holds a *different object* under an existing key."""
+        out = None
+        for ent in self.objs:
+            memo = ent[3]
+            if memo is None:
+                continue
+            try:
+                c = object.__getattribute__(ent[1], "_cache")
+            except AttributeError:
+                continue
+            for k, pr in memo.items():
+                cur = c.get(k, _MISSING)
+                if cur is not pr[0]:
+                    if out is None:
+                        out = []
+                    out.append(ent)
+                    break
+        return out
+
     def check(self, step, op):
         viols = []
         for ent in self.objs:
@@ -76,6 +99,9 @@ class Tracker:
                         viols.append({"kind": "M2_memo_value_changed", "obj": idx, "at_op": step, "op": op["op"], "key": k, "before": r[:200], "after": cur[k][1][:200]})
                 ent[3] = cur
         return viols
+
+
+_MISSING = object()
 
 
 def _mutable(v):
@@ -121,7 +147,7 @@ class Warm:
         self.netloc_routes = {}
 
     def live(self):
-        return [i for i, s in enumerate(self.slots) if s is not None]
+        return [i for i, s in enumerate(self.slots) if W.is_url(s)]
 
     def step(self, op):
         name = op["op"]
@@ -150,7 +176,7 @@ class Warm:
         out, res, m3 = W.apply_op(op, self.slots)
         self.slots.append(res)
         obs = None
-        if res is not None and op.get("obs") is not None:
+        if W.is_url(res) and op.get("obs") is not None:
             obs = W.deep(res, op["obs"])
         self.outcomes.append([out, obs])
         self.ctr.inc("ops")
@@ -164,7 +190,7 @@ class Warm:
             m3["kind"] = "M3_argument_mutated"
             m3["at_op"] = idx
             self.violations.append(m3)
-        if res is not None:
+        if W.is_url(res):
             self.tr.add(idx, res)
         self.violations.extend(self.tr.check(idx, op))
         # fault accounting (fired, not configured)
@@ -214,14 +240,28 @@ class Warm:
         return out
 
 
-def _gen_op(rng, at, knobs, live, ops=None):
+def _gen_op(rng, at, knobs, live, ops=None, slots=None):
     r = rng.random()
     sr = knobs["state_rate"]
+    if ops and rng.random() < knobs.get("repeat_rate", 0.0):
+        import copy as _c
+        cands = [o for o in ops if o["op"] in W.URLISH_OPS]
+        if cands:
+            o = _c.deepcopy(rng.choice(cands))
+            o.pop("obs", None)
+            return o
     if ops and rng.random() < knobs.get("variant_rate", 0.0):
         cands = [i for i, o in enumerate(ops) if o["op"] in W.URLISH_OPS and o["op"] not in ("pickle", "copy", "deepcopy", "reduce", "origin", "relative", "parent")]
         v = W.gen_variant(rng, ops, cands)
         if v is not None:
             return v
+    containers = [i for i, x in enumerate(slots or []) if x is not None and not W.is_url(x)]
+    if live and containers and rng.random() < 0.5 * knobs.get("container_rate", 0.0) * 10:
+        if rng.random() < 0.5:
+            return W.gen_query_op_with_ref(rng, live, containers, slots)
+        return W.gen_mutate(rng, at, containers)
+    if rng.random() < knobs.get("container_rate", 0.0):
+        return W.gen_mk(rng, at)
     if not live or r < 0.25:
         op = W.gen_constructor(rng, at, live)
     elif r < 0.25 + sr * 0.3:
@@ -252,7 +292,7 @@ def warm_generate(seed, cfg):
     run_prelude(pre)
     ex.info = W.lru_info_all()
     while len(ex.ops) < knobs["nops"]:
-        ex.step(_gen_op(rng, at, knobs, ex.live(), ex.ops))
+        ex.step(_gen_op(rng, at, knobs, ex.live(), ex.ops, ex.slots))
     final = sorted(rng.sample(ex.live(), min(6, len(ex.live()))))
     return finish_warm(ex, seed, pre, final)
 
@@ -281,7 +321,7 @@ def warm_replay(case):
 def finish_warm(ex, seed, pre, final):
     final_obs = {}
     for i in final:
-        if ex.slots[i] is not None:
+        if W.is_url(ex.slots[i]):
             final_obs[str(i)] = W.deep(ex.slots[i])
             ex.violations.extend(ex.tr.check(len(ex.ops), {"op": "final_observation"}))
     return {
@@ -309,8 +349,8 @@ def cold_eval(ops, k, final):
         if i == k:
             out = o
             if final:
-                obs = W.deep(res) if res is not None else None
-            elif res is not None and op.get("obs") is not None:
+                obs = W.deep(res) if W.is_url(res) else None
+            elif W.is_url(res) and op.get("obs") is not None:
                 obs = W.deep(res, op["obs"])
     return [out, obs]
 
